@@ -9,9 +9,9 @@ import datetime, math, functools, logging
 from collections import Counter
 import numpy as np
 from .. import proto
-from ..proto import enc, hexs, unhex
+from ..proto import enc, hexs, unhex, name_key
 from ..engine import Finding, Timeout
-from .c02 import guarded, enc_table, enc_dictable, dec_table, keq, cell, NAN, SNAN, XNAN
+from .c02 import guarded, enc_table, dec_table, keq, cell, NAN, SNAN, XNAN
 import pyg_base  # noqa: E402
 
 logging.getLogger('pyg').setLevel(logging.ERROR)
@@ -44,7 +44,13 @@ KEYS = [None, 0, 1, 2, 1.0, 2.0, 2.5, 'a', 'b', '', D(2020, 1, 1), D(2020, 1, 2,
 VALS = [None, 1, 2, 3, 0.5, 'p', 'q', D(2021, 5, 5)]
 
 
-def rand_table(rng, ncols=None, nan_ok=True, min_rows=0):
+# round k1: column KEYS that are not strings (what pivot makes of float / None / datetime y values, or dictable({1.5: [...]})) as listby /
+# groupby keys and as ordinary columns: on the wire and in the model such a key is NAMED U+0000 + its atom (proto.key_name), the runner
+# hands the implementation the real key (`by`, `grp` and the table alike).  Ints are left out (d[1] is a row: review v1, 0-D).
+COLKEYS = [1.5, 2.5, -0.25, None, D(2020, 1, 1), D(2021, 6, 30, 12)]
+
+
+def rand_table(rng, ncols=None, nan_ok=True, min_rows=0, keyed_ok=False):
     ncols = ncols or rng.choice([2, 2, 3, 3, 4])
     n = max(min_rows, rng.choice([0, 1, 2, 3, 4, 5, 6, 7, 8]))
     # one table in five has column names that are substrings of one another ('t' in 'ticker'): key / column selection by name must be exact
@@ -71,7 +77,22 @@ def rand_table(rng, ncols=None, nan_ok=True, min_rows=0):
         t.append((k, [rng.choice(pool) for _ in range(n)]))
     if rng.random() < 0.3:
         rng.shuffle(t)
+    if keyed_ok and rng.random() < 0.15:
+        ks = rng.sample(COLKEYS, min(len(t), rng.choice([1, 1, 2])))
+        idx = rng.sample(range(len(t)), len(ks))
+        for i, k in zip(idx, ks):
+            t[i] = (proto.key_name(k), t[i][1])
     return t
+
+
+def is_keyed(t):
+    return any(k[:1] == '\x00' for k, _ in t)
+
+
+def enc_dictable(d):
+    """a table of the implementation on the wire; column keys - also those of the SUB-TABLES that groupby stores as cells - go through key_name
+    (false alarm of round k1: the sub-tables were encoded with str(key), '1.5' for the float key 1.5)"""
+    return '(D' + ''.join(' (%s %s)' % (hexs(proto.key_name(k)), proto.enck(list(v))) for k, v in d.items()) + ')'
 
 
 def enc_names(xs):
@@ -131,12 +152,16 @@ def generate(rng, tier):
     for _ in range(n):
         r = rng.random()
         if r < 0.4:
-            t = rand_table(rng)
+            t = rand_table(rng, keyed_ok=True)
             by, kind = gen_by(rng, [k for k, _ in t])
+            if is_keyed(t):
+                kind = 'keyed-columns:' + kind + (':key-in-by' if any(b[:1] == '\x00' for b in by) else '')
             yield dict(tag='listby-' + kind, lines=['(group lu %s %s sp:%s)' % (enc_table(t), enc_names(by), rng.choice('sl'))])
         elif r < 0.75:
-            t = rand_table(rng)
+            t = rand_table(rng, keyed_ok=True)
             by, kind = gen_by(rng, [k for k, _ in t])
+            if is_keyed(t):
+                kind = 'keyed-columns:' + kind + (':key-in-by' if any(b[:1] == '\x00' for b in by) else '')
             names = [k for k, _ in t]
             r2 = rng.random()
             # the name of the group column: the default 'grp', or grp = a fresh name / a key column / another column of the table
@@ -173,13 +198,13 @@ def run_line(state, sx):
     op = sx[1]
     d = dec_table(sx[2])
     if op in ('lu', 'gu'):
-        by = [proto.dec_cell(a) for a in sx[3][1:]]
+        by = [name_key(proto.dec_cell(a)) for a in sx[3][1:]]
         star = len(sx) > 4 and sx[4] == 'sp:s'
         if op == 'lu':
             l = guarded(lambda: d.listby(*by) if star else d.listby(by))
             u = guarded(lambda: l.unlist())
         else:
-            kw = dict(grp=proto.dec_cell(sx[5])) if len(sx) > 5 else {}
+            kw = dict(grp=name_key(proto.dec_cell(sx[5]))) if len(sx) > 5 else {}
             l = guarded(lambda: d.groupby(*by, **kw) if star else d.groupby(by, **kw))
             u = guarded(lambda: l.ungroup(**kw))
         return 'ok (T %s %s %s)' % (enc_dictable(l), enc_dictable(u), enc_dictable(d))
@@ -503,6 +528,82 @@ def laws(rng, tier, ctx):
             if msg:
                 yield Finding('violation', dict(case, tag='law-pivot-result-is-a-table-y-' + ykind), msg)
                 continue
+        if msg:
+            yield Finding('violation', case, msg)
+    # datetime-like keys the wire cannot spell (review 4 v1 item 5, C11 half; round k1): pd.Timestamp, pd.NaT, np.datetime64 (incl. NaT), np.float32 beside
+    # datetimes, None, NaN.  listby / groupby / their inverses and pivot on the implementation alone, against a grouping by the NORMALISED key (a Timestamp /
+    # datetime64 is the datetime of its instant; every NaT is ONE missing datetime, not None and not NaN).
+    import pandas as pd
+    NAT = ('NaT',)
+
+    def norm(k):
+        if k is pd.NaT or (isinstance(k, np.datetime64) and np.isnat(k)):
+            return NAT
+        if isinstance(k, pd.Timestamp):
+            return k.to_pydatetime()
+        if isinstance(k, np.datetime64):
+            return k.astype('datetime64[us]').astype(datetime.datetime)
+        return k
+
+    def nkeq(a, b):
+        a, b = norm(a), norm(b)
+        return (a is NAT and b is NAT) if (a is NAT or b is NAT) else keq(a, b)
+
+    def pool():
+        return [pd.Timestamp('2020-01-01'), D(2020, 1, 1), pd.NaT, np.datetime64('NaT'), np.datetime64('2020-01-02'), pd.Timestamp('2020-01-02'),
+                D(2020, 1, 2), None, np.float32(0.5), 0.5, float('nan'), 1]
+    for _ in range(60 if tier == 'quick' else 1500):
+        ks = rng.sample(pool(), rng.choice([2, 3, 4, 6]))
+        nrows = rng.choice([1, 2, 3, 5, 8])
+        ka = [rng.choice(ks) for _ in range(nrows)]
+        xa = [rng.choice([0, 1]) for _ in range(nrows)]
+        case = dict(tag='law-datetime-like-keys', lines=['(python: d = dictable(k = %r, x = %r, v = range(%d)); d.listby("k").unlist(); d.groupby("k").ungroup(); d.xyz("x", "k", "v", list))' % (ka, xa, nrows)])
+        count += 1
+        try:
+            d = pyg_base.dictable(k=list(ka), x=list(xa), v=list(range(nrows)))
+            L = guarded(lambda: d.listby('k'))
+            U = guarded(lambda: L.unlist())
+            G = guarded(lambda: d.groupby('k'))
+            R = guarded(lambda: G.ungroup())
+            P = guarded(lambda: d.xyz('x', 'k', 'v', list))
+        except Timeout:
+            yield Finding('violation', case, 'listby / groupby / xyz did not return within its time budget')
+            continue
+        except Exception as e:
+            yield Finding('violation', case, 'listby / unlist / groupby / ungroup / xyz raised %s: %s' % (type(e).__name__, str(e)[:80]))
+            continue
+        classes = []
+        for i in range(nrows):
+            for c in classes:
+                if nkeq(ka[c[0]], ka[i]):
+                    c.append(i)
+                    break
+            else:
+                classes.append([i])
+        want = sorted(classes)
+        msg = None
+        if sorted(list(v) for v in L['v']) != want:
+            msg = 'listby groups the rows as %s, the rows of equal key are %s' % (sorted(list(v) for v in L['v']), want)
+        elif any(not nkeq(L['k'][g], ka[L['v'][g][0]]) for g in range(len(L))):
+            msg = 'a listby key is not the key of its rows'
+        elif sorted(U['v']) != list(range(nrows)) or any(not nkeq(U['k'][j], ka[U['v'][j]]) for j in range(len(U))):
+            msg = 'unlist(listby) does not restore the rows: v = %s' % (list(U['v']),)
+        elif sorted(list(g['v']) for g in G['grp']) != want or sum(len(g) for g in G['grp']) != nrows:
+            msg = 'groupby sub-tables hold the rows %s, the rows of equal key are %s' % (sorted(list(g['v']) for g in G['grp']), want)
+        elif sorted(R['v']) != list(range(nrows)) or any(not nkeq(R['k'][j], ka[R['v'][j]]) for j in range(len(R))):
+            msg = 'ungroup(groupby) does not restore the rows: v = %s' % (list(R['v']),)
+        else:
+            # pivot: the cell of (x, y class) lists exactly the rows with that x and a key of that class, None where there is none
+            # columns read through dict.items: `P[np.datetime64('NaT')]` beside a Timestamp key raises TypeError inside pandas (`Timestamp == datetime64('NaT')`,
+            # reached through `item in self.keys()`, a linear search) - a pandas 3 quirk on a key outside the quantifier, recorded in the notes
+            ycols = [(c, col) for c, col in dict.items(P) if not (isinstance(c, str) and c == 'x')]
+            if len(ycols) != len(classes):
+                msg = 'pivot has %d y columns %r for %d distinct y values' % (len(ycols), [c for c, _ in ycols], len(classes))
+            else:
+                cells = sorted(sorted(c) for j in range(len(P)) for _, col in ycols for c in [col[j]] if c is not None)
+                wantc = sorted(sorted(i for i in c if xa[i] == x) for c in classes for x in set(xa) if any(xa[i] == x for i in c))
+                if cells != wantc:
+                    msg = 'pivot cells hold the rows %s, the (x, y) groups are %s' % (cells, wantc)
         if msg:
             yield Finding('violation', case, msg)
     yield count
